@@ -107,3 +107,12 @@ class Interp:
             t = self.expand(rebuild(t, sub))
             cur = caller
         return t
+
+
+def unwrap_all(t):
+    """remove every wrap (Arc/Box/Mutex/Guard) layer at any depth"""
+    def f(n):
+        if n[0] == "wrap":
+            return n[2]
+        return n
+    return rebuild(t, f)
